@@ -20,7 +20,9 @@ OBLIGATIONS = ["call_forms_agree", "slice_spec", "slice_compose", "matrix_slice_
                "expr_value_set_order_irrelevant", "mk_fun_wf", "mk_mat_wf", "cond_slice_true_partial",
                "cond_slice_false_neutral_partial", "cond_false_zeroary_refuted",
                "cond_call_forms_agree", "call_forms_agree_all", "cond_slice_spec", "cond_slice_spec_no_neutral",
-               "slice_spec_all", "cond_slice_compose", "slice_compose_all"]
+               "slice_spec_all", "cond_slice_compose", "slice_compose_all",
+               "slice_exceptions_spec", "slice_succeeds_iff", "gv_dict_exceptions_spec", "gv_list_exceptions_spec",
+               "call_kw_exceptions_spec"]
 N_QUICK, N_THOROUGH = 100, 600         # batches of 10 sub-cases each
 PARALLEL = 8
 SHARD = 12
@@ -236,14 +238,16 @@ def gen_sub(rng):
     steps = []
     valid = wf
     for _ in range(rng.choice([0, 1, 1, 2, 2, 3])):
-        if malformed and rng.random() < 0.4:
+        if (malformed and rng.random() < 0.4) or rng.random() < 0.06:   # a bad step also on well-formed relations
             valid = False
             kind = rng.choice(["unknown", "ood", "again", "toomany"])
             keys = rng.sample(remaining, rng.randint(0, len(remaining)))
             p = [[v, rng.choice(doms[str(v)])] for v in keys]
             if kind == "unknown":
                 p.append([rng.choice([6, 7]), 1])
-            elif kind == "ood" and p:
+            elif kind == "ood" and (p or remaining):
+                if not p:
+                    p = [[rng.choice(remaining), 9]]
                 p[0][1] = 9
             elif kind == "again":
                 gone = [v for v in names if v not in remaining]
@@ -269,9 +273,10 @@ def gen_sub(rng):
         c = list(c)
         rng.shuffle(c)
         probes.append(dict(c=c, full=True))
-    if malformed or rng.random() < 0.2:
-        base = list(comps[0])
-        kind = rng.choice(["missing", "extra", "ood", "unknown"])
+    # malformed probes (exception statements): up to 3 different kinds on a malformed sub-case
+    for kind in (rng.sample(["missing", "extra", "ood", "unknown"], 3) if malformed
+                 else [rng.choice(["missing", "extra", "ood", "unknown"])] if rng.random() < 0.2 else []):
+        base = list(rng.choice(comps))
         if kind == "missing" and base:
             base = base[:-1]
         elif kind == "extra":
@@ -460,6 +465,94 @@ def _finding(sub, upto, params_obs):
     return None if cval else "C11-cond-false-zeroary"
 
 
+# independent statement of the exception theorems (slice_exceptions_spec, gv_dict_exceptions_spec,
+# gv_list_exceptions_spec, call_kw_exceptions_spec) for a well-formed NON-conditional relation whose current
+# kind is `kind` ("zero"|"unary"|"bool"|"fun"|"mat"|"neutral") over the remaining variables R (in order)
+def _exc_slice(kind, R, p, doms):
+    keys = [k for k, _ in p]
+    if kind == "zero":
+        return "ValueError" if p else None
+    if kind in ("unary", "bool"):
+        return "ValueError" if p and (len(p) >= 2 or keys[0] != R[0]) else None
+    if kind == "neutral":
+        return None
+    if any(k not in R for k in keys):
+        return "ValueError" if kind == "fun" else "AttributeError"
+    if kind == "mat" and any(x not in doms[str(k)] for k, x in p):
+        return "ValueError"
+    return None
+
+
+def _exc_dict(kind, R, d, doms, kwform):
+    keys = [k for k, _ in d]
+    if kind == "zero":
+        return "ValueError" if d else None
+    if kind in ("unary", "bool"):
+        if kwform and len(d) != 1:
+            return "ValueError"
+        return None if R[0] in keys else "KeyError"
+    if kind == "neutral":
+        return None
+    if any(k not in R for k in keys):
+        return "KeyError" if kind == "fun" else "AttributeError"
+    if kind == "fun":
+        return "TypeError" if any(v not in keys for v in R) else None
+    if any(x not in doms[str(k)] for k, x in d) or any(v not in keys and len(doms[str(v)]) != 1 for v in R):
+        return "ValueError"
+    return None
+
+
+def _exc_list(kind, R, l, doms):
+    if kind == "zero":
+        return "ValueError" if l else None
+    if kind in ("unary", "bool"):
+        return None if len(l) == 1 else "ValueError"
+    if kind == "neutral":
+        return None
+    if len(l) > len(R):
+        return "IndexError"
+    return _exc_dict(kind, R, [[v, x] for v, x in zip(R, l)], doms, False)
+
+
+def exc_failures(sub, o):
+    """exceptions of every executed slice step and of every probe (malformed ones included) against the
+    statement above; only for well-formed non-conditional relations without free names"""
+    s = sub["spec"]
+    if s["k"] == "cond" or not sub["wf"] or "ok" not in o["built"]:
+        return []
+    if s["k"] == "unary" and [n for n in expr_fv(s["body"]) if n != s["param"]]:
+        return []
+    if s["k"] == "fun" and [n for n in expr_fv(s["body"]) if n not in s["params"]]:
+        return []
+    kind, R, doms = s["k"], list(o["built"]["ok"]), sub["doms"]
+
+    def got(x):
+        return x.get("err")
+
+    for i, p in enumerate(sub["steps"]):
+        if i >= len(o["sliced"]):
+            return [("step %d not executed" % i, None)]
+        exp = _exc_slice(kind, R, p, doms)
+        if got(o["sliced"][i]) != exp:
+            return [("slice step %d on %r of the %s relation over %r: raised %r, the exception statement gives %r"
+                     % (i, p, kind, R, got(o["sliced"][i]), exp), None)]
+        if exp is not None:
+            return []
+        if kind in ("unary", "bool") and p:
+            kind = "zero"
+        R = [v for v in R if v not in [k for k, _ in p]]
+    for forms in o["probes"]:
+        for form, args, res in forms:
+            if form in ("pos", "gvlist"):
+                exp = _exc_list(kind, R, args, doms)
+            else:
+                exp = _exc_dict(kind, R, args, doms, form in ("kw", "calldict"))
+            if got(res) != exp:
+                return [("the %s form on %r of the %s relation over %r (after slicing %r): raised %r, the exception "
+                         "statement gives %r" % (form, args, kind, R, sub["steps"], got(res), exp), None)]
+    return []
+
+
 def sub_failures(sub, o):
     """list of (message, finding id or None)"""
     if "driver_error" in o:
@@ -474,7 +567,8 @@ def sub_failures(sub, o):
             return [("dimensions %r of the new relation, expected the variables %r" % (o["built"]["ok"], names), None)]
         if s["k"] != "cond" and o["built"]["ok"] != spec_vars(s):
             return [("dimensions %r are not in the order given %r" % (o["built"]["ok"], spec_vars(s)), None)]
-    if not sub["valid"] or "err" in o["built"]:
+    out.extend(exc_failures(sub, o))
+    if out or not sub["valid"] or "err" in o["built"]:
         return out
     sliced = {}
     remaining = list(o["built"]["ok"])
